@@ -152,27 +152,44 @@ class Prover:
     neg = z3.BoolVal(True) if goal is False else z3.Not(goal)
     s = self._solver()
     s.add(assume)
-    if axioms:
-      s.add(uf_axioms(list(assume) + [neg]))
+    ax = uf_axioms(list(assume) + [neg]) if axioms else []
+    s.add(ax)
+    # companion solver without the sqrt/pow axioms: used only to look for candidate
+    # counterexamples when the axiomatised query is `unknown` (a model found there is a
+    # candidate, believed only after replay; `unsat` there is sound - fewer assumptions).
+    s2 = None
+    if ax:
+      s2 = self._solver()
+      s2.add(assume)
     ncases = [0]
     model = [None]
-    deadline = time.time() + max(timeout_s * 6, 60)
+    weak = [False]
+    budget = max(timeout_s * 4, 45)
+    deadline = time.time() + budget
+
+    def both(neg_f, t_s):
+      r, m = self._check(s, [neg_f], t_s)
+      if r != 'unknown' or s2 is None:
+        return r, m, False
+      r2, m2 = self._check(s2, [neg_f], min(t_s, 5.0))
+      if r2 == 'unsat':
+        return 'unsat', None, False
+      if r2 == 'sat':
+        return 'sat', m2, True
+      return 'unknown', None, False
 
     def rec(neg_f, pending_split, depth):
       ncases[0] += 1
-      last = nosplit or depth >= 24 or ncases[0] >= self.max_cases
-      r, m = self._check(s, [neg_f], timeout_s if last else min(self.first_s, timeout_s))
+      over = time.time() > deadline
+      last = nosplit or depth >= 24 or ncases[0] >= self.max_cases or over
+      r, m, wk = both(neg_f, (min(timeout_s, 5.0) if over else timeout_s) if last else min(self.first_s, timeout_s))
       if r == 'sat':
         model[0] = m
+        weak[0] = wk
         return 'sat'
       if r == 'unsat':
         return 'unsat'
-      if last or time.time() > deadline:
-        if not last:
-          r, m = self._check(s, [neg_f], timeout_s)
-          if r == 'sat':
-            model[0] = m
-          return r
+      if last:
         return 'unknown'
       # choose a split atom
       atom = None
@@ -185,11 +202,11 @@ class Prover:
         cands = ite_atoms([neg_f])
         if not cands:
           cands = ite_atoms(s.assertions())
-        cands = [c for c in cands if not _decided(s, c, self)]
         if not cands:
-          r, m = self._check(s, [neg_f], timeout_s)
+          r, m, wk = both(neg_f, timeout_s)
           if r == 'sat':
             model[0] = m
+            weak[0] = wk
           return r
         atom = cands[0]
       any_unknown = False
@@ -197,17 +214,21 @@ class Prover:
         lit = atom if pol else z3.Not(atom)
         s.push()
         s.add(lit)
+        if s2 is not None:
+          s2.push()
+          s2.add(lit)
         f2 = z3.simplify(z3.substitute(neg_f, (atom, z3.BoolVal(pol))))
         if z3.is_false(f2):
           sub = 'unsat'
         else:
           sub = rec(f2, rest, depth + 1)
         s.pop()
+        if s2 is not None:
+          s2.pop()
         if sub == 'sat':
           return 'sat'
         if sub != 'unsat':
           any_unknown = True
-          break
       return 'unknown' if any_unknown else 'unsat'
 
     status = rec(neg, list(split), 0)
@@ -217,6 +238,8 @@ class Prover:
       res['note'] = note
     if status == 'sat':
       res['model'] = model[0]
+      if weak[0]:
+        res['note'] = (res.get('note', '') + ' candidate model found without sqrt/pow axioms').strip()
     self.results.append(res)
     return res
 
